@@ -20,7 +20,7 @@ RULE = ("histories of class constructions, queries and partially consumed iterat
         "<=4 open iterators; non-trivial = the history queries some level >= 2 of a class; distinct = distinct history lines")
 ASSUMPTIONS = [
     "model/implementation agreement outside the enumerated and sampled histories is assumed",
-    "for mesh bases the line carries the elements of the constructed MeshBasis (its pruning is C05's subject)",
+    "for mesh bases the line carries the RAW input patterns: the implementation builds its MeshBasis, the model goes through the C05 model of that construction, the oracle avoids the raw patterns",
     "order of permutations inside one level is not compared (canonical forms sort complete levels)",
 ]
 PARTIAL = ["the driver's string layer and iterator registry (parsing, canonical printing, St.yielded) is glue: the Proc-level "
@@ -298,8 +298,8 @@ def mesh_gap(basis_str, upto=5):
 
 # ------------------------------------------------------------------ implementation side
 def to_patt(b):
-    if b[0] == "c":
-        return Perm(b[1])
+    if b[0] == "c" or not b[2]:
+        return Perm(b[1])          # an element without shading is a classical pattern of the (mixed) input
     return MeshPatt(Perm(b[1]), b[2])
 
 
@@ -458,26 +458,40 @@ def mesh_elem(p, cells):
 
 
 def rand_mesh_basis_line(rng):
-    """elements of the MeshBasis the implementation constructs (pruned, in its order)"""
-    from permuta import MeshBasis as MB, MeshPatt as M, Perm as P
+    """a RAW mixed input for Av(...): mesh patterns and classical ones, with redundant elements planted
+    (a longer pattern whose underlying permutation contains an earlier one, a super-shading, a repeat);
+    the implementation builds its MeshBasis from it, the model goes through the C05 model of that
+    construction and the oracle avoids the raw patterns"""
     k = rng.randrange(1, 3)
-    patts = []
+    els = []          # (perm, cells or None for a classical pattern)
     for _ in range(k):
         n = rng.randrange(1, 4) if rng.random() < 0.93 else 0
         p = rand_perm(rng, n)
         dens = rng.choice([0.1, 0.3, 0.6, 1.0])
         cells = [(x, y) for x in range(n + 1) for y in range(n + 1) if rng.random() < dens]
-        if rng.random() < 0.3:
-            patts.append(P(p))
+        els.append((p, None) if rng.random() < 0.3 else (p, cells))
+    if rng.random() < 0.45 and els:
+        p, cells = els[rng.randrange(len(els))]
+        r = rng.random()
+        if r < 0.5 and len(p) <= 2:
+            # a longer element whose underlying permutation contains p (as a permutation)
+            v = rng.randrange(len(p) + 1)
+            i = rng.randrange(len(p) + 1)
+            q = [x if x < v else x + 1 for x in p]
+            q.insert(i, v)
+            qc = [(x, y) for x in range(len(q) + 1) for y in range(len(q) + 1) if rng.random() < 0.15]
+            els.append((tuple(q), None if rng.random() < 0.5 else qc))
+        elif r < 0.8 and cells is not None:
+            n = len(p)
+            extra = [(x, y) for x in range(n + 1) for y in range(n + 1) if rng.random() < 0.3]
+            els.append((p, sorted(set(cells) | set(extra))))
         else:
-            patts.append(M(P(p), cells))
-    if not any(isinstance(x, M) for x in patts):
-        patts[0] = M(patts[0], [(0, 0)])
-    try:
-        mb = MB(*patts)
-    except Exception:
-        return None
-    return ";".join(mesh_elem(tuple(m.pattern), m.shading) for m in mb)
+            els.append((p, cells))
+    if not any(c for _, c in els):
+        p, _ = els[0]
+        els[0] = (p, [(0, 0)])
+    rng.shuffle(els)
+    return ";".join(mesh_elem(p, c) if c is not None else fseq(p) + "/_" for p, c in els)
 
 
 def random_history(rng, maxlen, allow_mesh=True):
